@@ -163,9 +163,9 @@ def r8_2(cx):
             ok = len(dom) == 1
             if ok:
                 p, v = dom[0]
-                inc = v.b.const_int() if v.kind == 'binop' and v.op == 'Add' and is_param_field(v.a, 'offset') else None
+                inc = int_or_const_len(cx.prog, v.b) if v.kind == 'binop' and v.op == 'Add' and is_param_field(v.a, 'offset') else None
                 skips = [cs for cs in fn.calls(ASLICE + '::skip_prefix') if fn.pos_dominates(cs.pos, pos)]
-                k = skips[0].arg(1).const_int() if len(skips) == 1 else None
+                k = int_or_const_len(cx.prog, skips[0].arg(1)) if len(skips) == 1 else None
                 after = is_param_field(off, 'offset') and off.pos is not None and fn.pos_dominates(p, off.pos)
                 ok = inc == seq_len and k == seq_len and after and is_param_field(skips[0].arg(0).a if skips[0].arg(0).kind == 'ref' else skips[0].arg(0), 'buf')
                 cx.check(ok, inst, fn, fn.loc(pos.bb, pos.idx), 'offset += %s; skip_prefix(%s); Sentinel(offset)' % (inc, k),
